@@ -262,7 +262,7 @@ func runHsrvCase(t *testing.T, c map[string]any, tmp string) map[string]any {
 	res["startup"] = drainOch(och, 60*time.Millisecond)
 
 	dial := func(sni string) (*tls.Conn, error) {
-		d := &net.Dialer{Timeout: 2 * time.Second}
+		d := &net.Dialer{Timeout: 15 * time.Second} /* loopback answers at once; the time is for a stalled machine */
 		return tls.DialWithDialer(d, "tcp", addr, &tls.Config{InsecureSkipVerify: true, ServerName: sni, NextProtos: []string{"http/1.1"}})
 	}
 	/* What the listener really presents. */
